@@ -7,6 +7,7 @@ import Driver.Misc.Main
 import Driver.Conc.Main
 import Driver.GCMon.Main
 import Driver.Immix.Main
+import Driver.Sched.Main
 /-!
 # `mmtk_model`: the executable model behind the line protocol
 
@@ -25,6 +26,7 @@ structure St where
   conc : Driver.Conc.St := {}
   gcmon : Driver.GCMon.Pkg.St := {}
   immix : Driver.Immix.St := {}
+  sched : Driver.Sched.St := {}
 
 def step (st : St) (line : String) : St × Option String :=
   match tokens line with
@@ -32,7 +34,7 @@ def step (st : St) (line : String) : St × Option String :=
   | "cfg" :: rest =>
     let st := { st with metaS := Driver.Meta.cfg st.metaS rest, ds := Driver.DS.cfg st.ds rest,
                         layout := Driver.Layout.cfg st.layout rest, misc := Driver.Misc.cfg st.misc rest,
-                        conc := Driver.Conc.cfg st.conc rest }
+                        conc := Driver.Conc.cfg st.conc rest, sched := Driver.Sched.cfg st.sched rest }
     match Driver.Base.step st.base ("cfg" :: rest) with
     | some (b, _) => ({ st with base := b }, some "ok")
     | none => (st, some "ok")
@@ -60,6 +62,9 @@ def step (st : St) (line : String) : St × Option String :=
     | none =>
     match Driver.Immix.step st.immix toks with
     | some (s, o) => ({ st with immix := s }, some o)
+    | none =>
+    match Driver.Sched.stepPkg st.sched toks with
+    | some (s, o) => ({ st with sched := s }, some o)
     | none => (st, some "bad-op")
 
 partial def loop (h : IO.FS.Stream) (out : IO.FS.Stream) (st : St) : IO Unit := do
